@@ -6,6 +6,7 @@
 use super::*;
 use crate::actor::socket::kani_h::{fake_socket, send_stub, srt_stub, SENT_N};
 use crate::common::{AnnouncePeerRequestArguments, PutMutableRequestArguments};
+use crate::core::iterative_query::IterativeQuery;
 use crate::core::kani_h::new_core;
 use crate::verif_env::{clock, cut_reached, rnd};
 
@@ -59,12 +60,98 @@ fn c06_o3_put_makes_progress() {
         assert!(registered == Some(true) || lookup_active, "C06.O3 an accepted put has a request in flight or an active lookup that will start it");
     }
     if cache == 1 {
-        assert!(r.is_ok() && registered == Some(true) && unsafe { SENT_N } == 1, "C08.O3 put starts directly from fresh cached nodes with tokens");
+        assert!(r.is_ok() && registered == Some(true) && unsafe { SENT_N.v } == 1, "C08.O3 put starts directly from fresh cached nodes with tokens");
     }
     assert!(!cut_reached(), "CUT: random bytes exhausted");
     kani::cover!(cache == 0 && r.is_ok() && lookup_active);
     kani::cover!(cache == 2);
     kani::cover!(cache == 1);
     std::mem::forget(r);
+    std::mem::forget(actor);
+}
+
+fn recv_none(_s: &mut KrpcSocket) -> Option<(Message, SocketAddrV4)> {
+    None
+}
+fn maintenance_skip(_a: &mut Actor) {}
+fn cache_skip(_c: &mut Core, _q: &IterativeQuery, _n: &[Node]) {}
+
+//@ ob: C06.O4
+//@ tier: thorough
+//@ cap: 3000
+//@ mem: 28
+//@ standins: tracing lru vcoll flume
+//@ also: C17 C20
+//@ desc: one tick over a finished lookup and the put waiting for it (inductive step of the no-hang invariant): before, a put for T is registered but not started, its caller is parked, and the lookup for T has just finished (no request in flight) with one responder that carries a write token or not; after tick() either the caller is still parked and then the put has a request in flight or a lookup for T is still active, or the caller was released with exactly one result; the finished lookup is gone from the active set; with a token the put is started with exactly one request, without one the caller gets an error
+//@ bounds: one lookup (find_node or get_peers, symbolic) with one candidate/responder (token presence symbolic), one parked put (announce_peer), one caller; no incoming datagram this tick; unwind 26
+//@ inv: every parked caller's target has a registered put that is started or has an active lookup
+//@ stubs: KrpcSocket::recv_from -> None (no datagram); Actor::periodic_node_maintaenance -> skipped (C14/C18); Core::cache_iterative_query -> skipped (statistics are C20.O1); KrpcSocket::send -> ghost log; set_read_timeout; Id::random; Instant::now; getrandom::fill
+//@ functions: Actor::{tick,check_done_put_queries,check_done_iterative_queries,start_put_queries}, Core::{closest_nodes_from_done_iterative_query,cleanup_done_queries}, IterativeQuery::{visit_closest,is_done}, PutQuery::{start,check}
+#[kani::proof]
+#[kani::stub(std::time::Instant::now, clock::now)]
+#[kani::stub(getrandom::fill, rnd::fill)]
+#[kani::stub(crate::actor::socket::KrpcSocket::send, send_stub)]
+#[kani::stub(crate::actor::socket::KrpcSocket::recv_from, recv_none)]
+#[kani::stub(Actor::periodic_node_maintaenance, maintenance_skip)]
+#[kani::stub(crate::core::Core::cache_iterative_query, cache_skip)]
+#[kani::stub(std::net::UdpSocket::set_read_timeout, srt_stub)]
+#[kani::stub(crate::common::id::Id::random, rnd::fixed_id)]
+#[kani::unwind(26)]
+fn c06_o4_tick_releases_or_progresses() {
+    clock::set(0);
+    let mut actor = new_actor(vec![SocketAddrV4::new([10, 9, 9, 9].into(), 6881)]);
+    let target = Id::from(T5);
+    // the finished lookup
+    let is_find_node: bool = kani::any();
+    let req = if is_find_node {
+        GetRequestSpecific::FindNode(crate::common::FindNodeRequestArguments { target })
+    } else {
+        GetRequestSpecific::GetPeers(crate::common::GetPeersRequestArguments { info_hash: target })
+    };
+    let mut q = IterativeQuery::new(*actor.core.routing_table.id(), target, req);
+    let mut id = [0u8; 20];
+    id[0] = 0x40;
+    let addr = SocketAddrV4::new([10, 0, 2, 1].into(), 7000);
+    let with_token: bool = kani::any();
+    let n = if with_token { Node::new_with_token(Id::from(id), addr, Box::new([1, 2, 3, 4])) } else { Node::new(Id::from(id), addr) };
+    q.add_candidate(n.clone());
+    q.kani_mark_visited(addr);
+    q.add_responding_node(n);
+    actor.core.iterative_queries.insert(target, q);
+    // the parked put
+    let put = PutQuery::new(PutRequestSpecific::AnnouncePeer(AnnouncePeerRequestArguments { info_hash: target, port: 1, implied_port: None }), None);
+    actor.core.put_queries.insert(target, put);
+    let (tx, rx) = flume::unbounded::<Result<Id, PutError>>();
+    actor.put_senders.insert(target, vec![tx]);
+
+    actor.tick();
+
+    let parked = actor.put_senders.contains_key(&target);
+    let started = actor.core.put_queries.get(&target).map(|q| q.started());
+    let lookup_active = actor.core.iterative_queries.contains_key(&target);
+    let first = rx.try_recv();
+    let second = rx.try_recv();
+    assert!(!lookup_active, "C20.O4 a finished lookup is removed from the active set");
+    if parked {
+        assert!(first.is_err(), "C06.O4 no result is delivered while the caller stays parked");
+        assert!(started == Some(true) || lookup_active, "C06.O3 an accepted put has a request in flight or an active lookup that will start it");
+    } else {
+        assert!(first.is_ok() && second.is_err(), "C06.O4 a released caller gets exactly one result");
+    }
+    // a put whose lookup found a token-bearing responder is started with exactly one request
+    // (find_node lookups report candidates, which carry no token)
+    if with_token && !is_find_node {
+        assert!(parked && started == Some(true) && unsafe { SENT_N.v } == 1, "C08.O3 put starts from the lookup's token-bearing responders");
+    }
+    if !with_token {
+        assert!(!parked && matches!(first, Ok(Err(_))), "C06.O4 a put whose lookup found no writable node fails instead of hanging");
+    }
+    assert!(!cut_reached(), "CUT: random bytes exhausted");
+    kani::cover!(parked && started == Some(true));
+    kani::cover!(!parked);
+    kani::cover!(is_find_node && with_token);
+    std::mem::forget(first);
+    std::mem::forget(second);
+    std::mem::forget(rx);
     std::mem::forget(actor);
 }
